@@ -87,5 +87,5 @@ R('rt_day', 'h_rt_day', None, unwind=14, defines=_D, cost=200, timeout=1800, pro
 R('rt_dtm', 'h_rt_dtm', None, unwind=14, defines=_D, cost=600, timeout=2400, props=('C06', 'C20'), tier='thorough')
 for _n in ('bti', 'hti', 'vti', 'btm', 'htm', 'vtm', 'min', 'ttm', 'tth', 'ttq', 'bda', 'bda3', 'hda', 'hda3'):
     R('wr_' + _n, 'h_wr_' + _n, None, unwind=14, defines=_D, cost=20, props=('C07', 'C20'))
-R('wr_day', 'h_wr_day', None, unwind=14, defines=_D, cost=300, timeout=2400, props=('C07', 'C20'), tier='thorough')
-R('wr_dtm', 'h_wr_dtm', None, unwind=14, defines=_D, cost=600, timeout=2400, props=('C07', 'C20'), tier='thorough')
+R('wr_day', 'h_wr_day', None, unwind=14, defines=_D, cost=150, timeout=1800, props=('C07', 'C20'))
+R('wr_dtm', 'h_wr_dtm', None, unwind=14, defines=_D, cost=300, timeout=2400, props=('C07', 'C20'))
